@@ -124,7 +124,8 @@ fn parent(path: &str, outpath: &str, timeout_ms: u64) {
                     // scenario `next` hangs
                     let _ = ch.kill();
                     let sc = &scs[next];
-                    let r = json!({"id": sc["id"], "fam": sc["fam"], "outcome": "timeout", "scenario": sc});
+                    let r = json!({"id": sc["id"], "fam": sc["fam"], "outcome": "timeout", "targets": [], "w": sc.get("w").and_then(|x| x.as_i64()).unwrap_or(0),
+                                   "h": sc.get("h").and_then(|x| x.as_i64()).unwrap_or(0), "den": sc.get("den").and_then(|x| x.as_i64()).unwrap_or(1)});
                     writeln!(out, "{}", serde_json::to_string(&r).unwrap()).unwrap();
                     next += 1;
                     break;
@@ -133,7 +134,8 @@ fn parent(path: &str, outpath: &str, timeout_ms: u64) {
                     // the child died (abort, stack overflow, OOM) while running scenario `next`
                     if next < n {
                         let sc = &scs[next];
-                        let r = json!({"id": sc["id"], "fam": sc["fam"], "outcome": "abort", "scenario": sc});
+                        let r = json!({"id": sc["id"], "fam": sc["fam"], "outcome": "abort", "targets": [], "w": sc.get("w").and_then(|x| x.as_i64()).unwrap_or(0),
+                                   "h": sc.get("h").and_then(|x| x.as_i64()).unwrap_or(0), "den": sc.get("den").and_then(|x| x.as_i64()).unwrap_or(1)});
                         writeln!(out, "{}", serde_json::to_string(&r).unwrap()).unwrap();
                         next += 1;
                     }
